@@ -39,7 +39,7 @@ def setup():
 
 
 KINDS = [('-I', ''), ('-L', ''), ('-D', ''), ('-U', ''), ('-isystem', ''), ('-l', ''), ('-Wl,-rpath,', ''), ('-f', ''),
-         ('lib', '.a'), ('/x/lib', '.so'), ('-D', '.so'), ('-I', '.a'), ('-Wl,-rpath-link,', ''), ('-Wl,-rpath', ''), ('-Wl,-rpath-link', ''), ('-Wl,-l', ''), ('FW', '.A'), ('x', '.SO'), ('P', '.Lib')]          # the last three: upper-case look-alikes of library suffixes are ordinary arguments
+         ('lib', '.a'), ('/x/lib', '.so'), ('-D', '.so'), ('-I', '.a'), ('-Wl,-rpath-link,', ''), ('-Wl,-rpath', ''), ('-Wl,-rpath-link', ''), ('-Wl,-l', ''), ('FW', '.A'), ('x', '.SO'), ('P', '.Lib'), ('sub/lib', '.so.2'), ('lib', '.so.1.2'), ('sub/x', '.so.2')]          # the last three: upper-case look-alikes of library suffixes are ordinary arguments
 EXACT = ['-pthread', '-I', '-D', '-c', '-Wl,-rpath-link', '-Wl,-rpath', '-Wl,-rpath,', '-l', '-Wl,--export-dynamic', '-isystem']      # bare option words whose value is the NEXT argument are never de-duplicated
 SMALL = [0, 2, 5, 7, 10]      # kinds used in the longer sequences: -I -D -l -f -D*.so
 
@@ -66,8 +66,8 @@ def isin(a, xs): return any(decide(bt_any(a == x)) for x in xs)
 
 
 def is_libso(a):
-    """([/\\\\]|^)lib.*\\.so(\\.N){0,3}$ for our argument shapes (version suffix: none or .1)"""
-    if not ew(a, ('.so', '.so.1')): return False
+    """([/\\\\]|^)lib.*\\.so(\\.N){0,3}$ for our argument shapes (version suffix: none, .1, .2, .1.2)"""
+    if not ew(a, ('.so', '.so.1', '.so.2', '.so.1.2')): return False
     cs = chars_of(a)
     for i in range(len(cs) - 2):
         if (i == 0 or decide(c_in(cs[i - 1], '/\\'))) and decide(bt_any(mkstr(cs[i:i + 3]) == 'lib')): return True
